@@ -169,7 +169,7 @@ def finish(report, meta):
     viol = [o for o in report.obligations if not o["ok"]]
     unlisted = [o for o in viol if o["key"] not in known]
     listed = [o for o in viol if o["key"] in known]
-    evdir = os.path.join(VERIF, "evidence")
+    evdir = os.environ.get("VERIF_EVIDENCE_DIR") or os.path.join(VERIF, "evidence")
     os.makedirs(evdir, exist_ok=True)
     for o in listed:
         print(f"KNOWN-FINDING: property={prop} {o['key']} {known[o['key']]}")
